@@ -163,6 +163,7 @@ def _compare(ck: Checked) -> None:
         nz = M.make_normalizer(cfg, with_domain=False)
         env = E.Env(r.n1)
         mapping, unusable = M.assumption_substitution(r.assumptions, nz)
+        M.apply_assumptions(nz, r.assumptions, env, mapping)
         ck.unusable += unusable
         for role, vars_ in spec.items():
             got = r.outputs.get(role)
